@@ -121,15 +121,16 @@ Proof.
   - rewrite (print2_eq_print1_when e SF). apply parse_print1. exact V.
 Qed.
 
-(* the two formatters each glue one hazardous pair *)
+(* the former witnesses of the hazardous pairs: both formatters separate them now *)
 Definition one := EAtom (TInt [49%N]).
 
-Theorem v1_glues_lss_sub_refuted :
+(* K1 (fixed): `< -1` keeps its blank under the old formatter as well *)
+Theorem v1_separates_lss_sub :
   let e := EUn LSS (EUn SUB one) in
   valid e /\ Forall tok_wf (print1 e) /\
-  hazards (sp1 e 0) = [(TOp LSS, TOp SUB)] /\
-  scan (render (resolve (fun _ => true) 0 (sp1 e 0))) = Some [TOp ARROW; TInt [49%N]] /\
-  parse [TOp ARROW; TInt [49%N]] = None /\
+  hazards (sp1 e 0) = [] /\ sep_ok (sp1 e 0) = true /\
+  scan (render (resolve (fun _ => false) 0 (sp1 e 0))) = Some (print1 e) /\
+  parse (print1 e) = Some e /\
   hazards (sp2 MDisp e) = [] /\
   scan (render (resolve (fun _ => true) 0 (sp2 MDisp e))) = Some (print2 e).
 Proof. vm_compute. repeat split; try reflexivity; repeat constructor. Qed.
